@@ -171,6 +171,37 @@ func rsvApplies(e int) bool {
 	return false
 }
 
+// alt picks the second spelling of an entry point (the exported per-opcode
+// method instead of Handle, the side-fixed wrapper instead of the function
+// that takes a state) for half of the cases.
+func (c ctlCase) alt() bool { return (len(c.Payload)+int(c.Key[0])+c.Entry)&1 == 1 }
+
+func (c ctlCase) handle(ch wsutil.ControlHandler, h ws.Header) error {
+	if !c.alt() {
+		return ch.Handle(h)
+	}
+	switch c.Op {
+	case ref.OpPing:
+		return ch.HandlePing(h)
+	case ref.OpPong:
+		return ch.HandlePong(h)
+	}
+	return ch.HandleClose(h)
+}
+
+func (c ctlCase) readData(rw io.ReadWriter) ([]byte, error) {
+	switch {
+	case c.Rsv != 0 || !c.alt():
+		data, _, err := wsutil.ReadData(rw, c.state())
+		return data, err
+	case c.Server:
+		data, _, err := wsutil.ReadClientData(rw)
+		return data, err
+	}
+	data, _, err := wsutil.ReadServerData(rw)
+	return data, err
+}
+
 // incoming is the control frame as the peer sends it.
 func (c ctlCase) incoming() ref.Frame {
 	return ref.Frame{H: ref.Header{Fin: true, Rsv: c.Rsv, Op: c.Op, Masked: c.Server, Mask: c.Key}, Payload: c.Payload}
@@ -202,9 +233,9 @@ func (c ctlCase) run() (written []byte, err error, trouble string) {
 		if c.Server {
 			wirePayload = ref.Mask(c.Payload, c.Key, 0)
 		}
-		err = wsutil.ControlHandler{Src: c.src(wirePayload, 0), Dst: rec, State: state}.Handle(h)
+		err = c.handle(wsutil.ControlHandler{Src: c.src(wirePayload, 0), Dst: rec, State: state}, h)
 	case eHandlePlain:
-		err = wsutil.ControlHandler{Src: c.src(c.Payload, 0), Dst: rec, State: state, DisableSrcCiphering: true}.Handle(h)
+		err = c.handle(wsutil.ControlHandler{Src: c.src(c.Payload, 0), Dst: rec, State: state, DisableSrcCiphering: true}, h)
 	case eFrameTop:
 		rd := &wsutil.Reader{Source: c.src(in.Encode(), hdrLen), State: state}
 		hdr, herr := rd.NextFrame()
@@ -234,7 +265,16 @@ func (c ctlCase) run() (written []byte, err error, trouble string) {
 			err = wsutil.HandleServerControlMessage(rec, msg)
 		}
 	case eReadMessage:
-		msgs, rerr := wsutil.ReadMessage(c.src(in.Encode(), hdrLen), state, nil)
+		var msgs []wsutil.Message
+		var rerr error
+		switch {
+		case c.Rsv != 0 || !c.alt():
+			msgs, rerr = wsutil.ReadMessage(c.src(in.Encode(), hdrLen), state, nil)
+		case c.Server:
+			msgs, rerr = wsutil.ReadClientMessage(c.src(in.Encode(), hdrLen), nil)
+		default:
+			msgs, rerr = wsutil.ReadServerMessage(c.src(in.Encode(), hdrLen), nil)
+		}
 		if rerr != nil || len(msgs) != 1 {
 			return nil, nil, fmt.Sprintf("ReadMessage on a valid control frame: %d messages, err=%v", len(msgs), rerr)
 		}
@@ -242,7 +282,7 @@ func (c ctlCase) run() (written []byte, err error, trouble string) {
 	case eReadDataTop:
 		wire := ref.EncodeAll([]ref.Frame{in, c.dataFrame(ref.OpText, true, "hi")})
 		var data []byte
-		data, _, err = wsutil.ReadData(tx.RW{Reader: c.src(wire, hdrLen), Writer: rec}, state)
+		data, err = c.readData(tx.RW{Reader: c.src(wire, hdrLen), Writer: rec})
 		if err == nil && string(data) != "hi" {
 			trouble = fmt.Sprintf("message after the control frame delivered as %q", data)
 		}
@@ -250,7 +290,7 @@ func (c ctlCase) run() (written []byte, err error, trouble string) {
 		first := c.dataFrame(ref.OpBinary, false, "ab")
 		wire := ref.EncodeAll([]ref.Frame{first, in, c.dataFrame(ref.OpCont, true, "cd")})
 		var data []byte
-		data, _, err = wsutil.ReadData(tx.RW{Reader: c.src(wire, len(first.Encode())+hdrLen), Writer: rec}, state)
+		data, err = c.readData(tx.RW{Reader: c.src(wire, len(first.Encode())+hdrLen), Writer: rec})
 		if err == nil && string(data) != "abcd" {
 			trouble = fmt.Sprintf("message around the control frame delivered as %q", data)
 		}
@@ -428,6 +468,9 @@ func judge(c ctlCase, written []byte, err error) (class string, bad string) {
 	}
 	if ref.ClosePayload(f.Payload) == ref.CloseReject {
 		return "", fmt.Sprintf("close reply payload %x is not a valid close payload", f.Payload)
+	}
+	if rc, rr := ws.ParseCloseFrameData(f.Payload); ws.CheckCloseFrameData(rc, rr) != nil {
+		return "", fmt.Sprintf("the peer's ws.CheckCloseFrameData rejects the close reply payload %x: %v", f.Payload, ws.CheckCloseFrameData(rc, rr))
 	}
 	status := uint16(f.Payload[0])<<8 | uint16(f.Payload[1])
 
@@ -964,6 +1007,67 @@ func TestNestedHandlersKeepTheirBuffers(t *testing.T) {
 	tally{"enum/nested-handlers/both-pongs-own-payload": n}.flush("")
 }
 
+// Headers ControlHandler was never meant to get (it does not check them itself):
+// a control header announcing more than 125 bytes. What it does with the frame
+// is not decided by the property, but "every reply is a single final frame that
+// the peer's own header check accepts: at most 125 payload bytes ..." holds for
+// whatever it writes.
+func TestOversizedUncheckedHeader(t *testing.T) {
+	rand.Seed(17)
+	n, wrote := 0, 0
+	for _, l := range []int{126, 127, 128, 131, 200, 1000, 70000} {
+		for _, op := range []byte{ref.OpPing, ref.OpPong, ref.OpClose} {
+			for _, server := range []bool{true, false} {
+				for v := 0; v < 8; v++ {
+					p := payloadOf(l, byte(v))
+					if op == ref.OpClose {
+						p = append([]byte{0x03, 0xe8}, bytes.Repeat([]byte("r"), l-2)...)
+						if v&4 != 0 {
+							p[1] = 0xed // 1005: must-reject code
+						}
+					}
+					c := ctlCase{Op: op, Payload: p, Server: server, Entry: eHandleRaw + v&1, Chunks: chunkPlans[(v>>1)&1], Key: [4]byte{byte(l), 0x3c, byte(v), 0x99}}
+					written, _, _ := c.run()
+					n++
+					desc := map[string]interface{}{"op": opNames[op], "announced_and_present": l, "server": server, "entry": entryNames[c.Entry], "chunks": c.Chunks}
+					frames, rest, perr := ref.ParseFrames(written)
+					if perr != nil {
+						hx.Failf(t, desc, "bytes written are not whole frames: %v (rest %x)", perr, rest)
+						return
+					}
+					if op == ref.OpPong && len(written) != 0 {
+						hx.Failf(t, desc, "a pong was answered with %x", written)
+						return
+					}
+					if len(frames) > 1 {
+						hx.Failf(t, desc, "%d frames written in answer to one control frame", len(frames))
+						return
+					}
+					for _, f := range frames {
+						wrote++
+						want := byte(ref.OpPong)
+						if op == ref.OpClose {
+							want = ref.OpClose
+						}
+						msg := checkFrameForPeer(f, server, want)
+						if msg == "" && op == ref.OpClose && len(f.Payload) != 0 && (len(f.Payload) < 2 || ref.ClosePayload(f.Payload) == ref.CloseReject) {
+							msg = fmt.Sprintf("close reply payload %x is not a valid close payload", f.Payload)
+						}
+						if msg != "" {
+							hx.Failf(t, desc, "%s", msg)
+							return
+						}
+					}
+					hx.NonTrivial(hx.Hash("oversize", op, l, server, v), func() interface{} { return desc })
+				}
+			}
+		}
+	}
+	hx.EvalN(n)
+	hx.Part("unchecked oversized control header handed to ControlHandler.Handle: 7 lengths > 125 x opcode x side x source mode x chunking", int64(n), true)
+	tally{"open/oversized-unchecked-header/reply-written-and-valid": wrote, "open/oversized-unchecked-header/nothing-written": n - wrote}.flush("")
+}
+
 // ---------------------------------------------------------------------------
 // random cases
 
@@ -1319,7 +1423,7 @@ func (c wrCase) capacity() int {
 }
 
 type wrStats struct {
-	frames, overflow, smallBufRefused, smallBufAccepted, multiWrite int
+	frames, overflow, smallBufRefused, multiWrite int
 }
 
 func runWriter(c wrCase, st *wrStats) string {
@@ -1367,15 +1471,12 @@ func runWriter(c wrCase, st *wrStats) string {
 				}
 				st.overflow++
 			default:
-				// Fits a control frame but not this writer's buffer: it may be refused or taken whole.
-				if !(n == 0 && err != nil) && !(n == o.N && err == nil) {
-					return fmt.Sprintf("op %d: Write(%d bytes) with %d of %d pending returned (%d, %v)", i, o.N, pending, capacity, n, err)
+				// Fits 125 bytes but exceeds this writer's limit (its buffer minus the reserved header
+				// bytes): "writes that would exceed the limit fail instead".
+				if err == nil || n != 0 {
+					return fmt.Sprintf("op %d: Write(%d bytes) with %d pending exceeds the writer's limit of %d but returned (%d, %v)", i, o.N, pending, capacity, n, err)
 				}
-				if err != nil {
-					st.smallBufRefused++
-				} else {
-					st.smallBufAccepted++
-				}
+				st.smallBufRefused++
 			}
 			if err == nil {
 				accepted = append(accepted, p...)
@@ -1493,8 +1594,7 @@ func TestControlWriterEnumerated(t *testing.T) {
 	hx.Part("control writer: all pairs of write sizes 0..130 x side x flush-between, triples over 9 boundary sizes, every buffer size 5..140 x patterns around the capacity", int64(n), true)
 	bulkClass("writer/enum/write-refused-over-125", st.overflow)
 	bulkClass("writer/enum/flush-after->=2-writes", st.multiWrite)
-	bulkClass("open/writer/fits-125-but-not-the-buffer/refused", st.smallBufRefused)
-	bulkClass("open/writer/fits-125-but-not-the-buffer/accepted", st.smallBufAccepted)
+	bulkClass("writer/exceeds-small-buffer-limit/refused", st.smallBufRefused)
 }
 
 func bulkClass(label string, n int) {
@@ -1530,10 +1630,7 @@ func TestControlWriterRandom(t *testing.T) {
 		}
 		hx.Class(fmt.Sprintf("writer/random/%s/server=%v/refused-over-125=%v/multi-write-frame=%v", kind, c.Server, st.overflow > 0, st.multiWrite > 0))
 		if st.smallBufRefused > 0 {
-			hx.Class("open/writer/fits-125-but-not-the-buffer/refused")
-		}
-		if st.smallBufAccepted > 0 {
-			hx.Class("open/writer/fits-125-but-not-the-buffer/accepted")
+			hx.Class("writer/exceeds-small-buffer-limit/refused")
 		}
 		if st.multiWrite > 0 || st.overflow > 0 {
 			hx.NonTrivial(hx.Hash("wr", c.Buf, c.Server, c.Op, fmt.Sprint(c.Ops)), func() interface{} { return c })
